@@ -6,7 +6,7 @@ ID = "C14"
 LEVEL = "other"
 TRUSTED = ["oracle: 60+-digit decimal evaluation of the three chain solutions with an independent reader of activation.dat",
            "the unit constant 1.6278e19 uCi per (atom/s) is taken as given"]
-EXPLANATION = "see DESIGN.md C14"
+EXPLANATION = ("Deductive: activity() per reaction kind (ordinary capture with burn-up, two-step '2n', decay-fed 'b', fast reactions): the branch taken is the exact chain solution in real arithmetic, never negative, decays by exp(-lambda t) over the rest times, omission flags (fast ratio 0, cadmium ratio), the epithermal factor, Sample._accumulate / calculate_activation (a natural element adds the abundance-weighted sum of its isotopes and an explicitly named isotope adds to it; the calculation records its arguments) and the two constructors. Closed: every column of activation.dat for both tables and the table's own redundancy (parent half-lives). Bounded: all 513 rows on a parameter grid against a 60-digit oracle (float accuracy is NOT proved: see the known findings), element sums, re-used environments/samples.")
 
 
 def units(tier):
